@@ -349,12 +349,16 @@ func (p *ParametersLiteral) UnmarshalJSON(b []byte) (err error) {
 		if err != nil {
 			return err
 		}
+	} else {
+		p.Xs = nil
 	}
 	if pl.Xe != nil {
 		p.Xe, err = ring.ParametersFromMap(pl.Xe)
 		if err != nil {
 			return err
 		}
+	} else {
+		p.Xe = nil
 	}
 	p.PlaintextModulus = pl.PlaintextModulus
 	return err
